@@ -863,6 +863,8 @@ var harnessNames = map[string]ExtFn{
 	"vFSLog":    hFSLog,
 	"vCorpusFile": hCorpusFile,
 	"vParam":    hParam,
+	"vMapOrderSite": hMapOrderSite,
+	"vMapOrderSites": func(in *Interp, fn *ssa.Function, args []Value) Value { return Sc{C: uint64(len(in.rangeSites))} },
 	"vPath":     func(in *Interp, fn *ssa.Function, args []Value) Value { return args[0] },
 	"vCleanup":  func(in *Interp, fn *ssa.Function, args []Value) Value { return nil },
 }
@@ -1284,6 +1286,18 @@ func extSortSlice(in *Interp, fn *ssa.Function, args []Value) Value {
 		for j := i; j > 0 && lt(j, j-1); j-- {
 			sl[j], sl[j-1] = sl[j-1], sl[j]
 		}
+	}
+	return nil
+}
+
+// vMapOrderSite(k): from now on the k-th distinct range-over-map site (numbered
+// in order of first execution) iterates in a symbolic order; k < 0 switches it off.
+func hMapOrderSite(in *Interp, fn *ssa.Function, args []Value) Value {
+	in.permSite = int(int64(args[0].(Sc).C))
+	in.permInstances = 0
+	in.rangeSites = map[*ssa.Range]int{}
+	if in.permSite < 0 {
+		in.permSite = -1
 	}
 	return nil
 }
